@@ -9,6 +9,7 @@ object identity of atoms per engine."""
 import random
 from lib import ast_io
 from lib.terms import g_str, g_list
+from lib import terms as TM
 
 ID = 'C16'
 IMPORTS = ['Lang.Ast', 'Lang.Front', 'Lang.Denote']
@@ -236,7 +237,9 @@ def make_case(rng, lits):
             clauses.append(['neg%d' % i, vargs, ['not', ['call', '=', [lits[i], m]]]])
             clauses.append(['pos%d' % i, vargs, ['call', '=', [lits[i], lits[i]]]])
     src = ast_io.program_text(clauses)
-    return {'src': src, 'lits': lits, 'envs': envs, 'atoms': atoms, 'muts': muts, 'clauses': clauses}
+    pool = (atoms or ['a']) + ['[]', 'zz', '']
+    calls = [[rng.random() < 0.4, rng.choice(pool)] for _ in range(rng.choice([4, 8, 12, 16]))]
+    return {'src': src, 'lits': lits, 'envs': envs, 'atoms': atoms, 'muts': muts, 'clauses': clauses, 'atom_calls': calls}
 
 def gen(rng, tier):
     n = 150 if tier == 'quick' else 2500
@@ -272,7 +275,8 @@ def builtin_corpus():
 
 def model_expr(case):
     envs = g_list([g_list(['(%s, %s)' % (g_str(v), ast_io.g_sterm(t)) for v, t in env.items()]) for env in case['envs']])
-    return '(run_c16 %s %s)' % (g_str(case['src']), envs)
+    calls = g_list(['(%s, %s)' % ('true' if e else 'false', g_str(n)) for e, n in case['atom_calls']])
+    return '(run_c16 %s %s %s)' % (g_str(case['src']), envs, calls)
 
 _UNSPEC = ['unspecified']
 
@@ -466,6 +470,11 @@ def impl(case):
                 for _ in E.unify(V2, X):
                     chain.append([mid, _topy(E, V1), _topy(E, V2), _topy(E, X)])
         o['chain'] = chain + [[_topy(E, V1), _topy(E, V2)]]
+        # the run-time term itself, read structurally (atoms / ints / compound names and arities / '.' cells / variables by
+        # identity, numbered by first occurrence): what the compiled fact builds, and what the API constructors build
+        X = yp.variable()
+        o['struct'] = [TM.term_obs(TM.ImplTerms([yp]).read(X)) for _ in yp.query('fact%d' % i, [X] + [yp.variable() for _ in vs])]
+        o['api_struct'] = [TM.term_obs(TM.ImplTerms([yp]).read(_build(yp, lit, {}))), TM.term_obs(TM.ImplTerms([yp2]).read(_build_alt(yp2, lit, {})))]
         # nothing stays bound
         X = yp.variable()
         for _ in yp.query('fact%d' % i, [X] + [yp.variable() for _ in vs]):
@@ -487,6 +496,10 @@ def impl(case):
                            _succeeds(E, yp.atom(a), yp.functor(a, []))[0], _succeeds(E, yp.functor(a, []), yp2.atom(a))[0]]
         r['to_python'] = enc(E.to_python(yp.atom(a)))
         out['atoms'].append(r)
+    # the atom tables of two fresh engines under a sequence of atom(name) calls: which calls return the same object
+    e1, e2 = E.YP(), E.YP()
+    objs = [(e2 if e else e1).atom(n) for e, n in case['atom_calls']]
+    out['atom_calls'] = [next(j for j, p in enumerate(objs) if p is q) for q in objs]
     # the empty list: one object per engine, however it is obtained; raw Python values convert to themselves
     X = yp.variable()
     out['nil'] = {'makelist': yp.makelist([]) is yp.ATOM_NIL, 'atom': yp.atom('[]') is yp.ATOM_NIL,
@@ -600,7 +613,9 @@ def _unnumber(t):
 def compare(case, io, mo):
     if not isinstance(io, dict):
         return None
-    mo, mlits = mo
+    mo, mlits, matoms = mo
+    if io.get('atom_calls') is not None and io['atom_calls'] != matoms:
+        return 'atom identity: the calls %r return the objects (numbered by creating call) %r, the atom table model gives %r' % (case['atom_calls'], io['atom_calls'], matoms)
     if mo[0] != 'ok':
         return 'the model front end refuses a program of literals (%s)' % mo[0]
     prog = mo[1]
@@ -633,6 +648,11 @@ def compare(case, io, mo):
                 return 'tie: literal %d: the harness and the Coq specification disagree on whether the value is specified' % i
             if (free != _UNSPEC and free != pf) or (bound != _UNSPEC and bound != pb):
                 return 'tie: literal %d: the Coq specification lit_py gives %r / %r, the harness expects %r / %r' % (i, free, bound, pf, pb)
+        # the term the literal denotes (sden, theorem C16_literal_denotation) against the run-time term read structurally
+        if o['struct'] != [mv[2]]:
+            return 'literal %d: the compiled fact builds the term %r, the literal denotes %r' % (i, o['struct'], mv[2])
+        if o['api_struct'] != [mv[2], mv[2]]:
+            return 'literal %d: the API constructors build %r, the literal denotes %r' % (i, o['api_struct'], mv[2])
         for pred in POSITIONS:
             if free != _UNSPEC and o[pred + '_free'] != [free]:
                 return 'literal %d in %s position: to_python gives %r, the specification (lit_py) prescribes %r' % (i, pred, o[pred + '_free'], free)
